@@ -5,7 +5,7 @@ from ..core import parse_sx, sx
 class C01(Prop):
     ID = "C01"
     THEOREMS = ["C01_accept_iff", "C01_query_sections", "C01_full_span_read", "C01_roundtrip_exact",
-                "C01_read_info", "C01_chrom_table", "C01_accepted_runs", "C01_query", "C01_roundtrip",
+                "C01_read_info", "C01_chrom_table", "C01_accepted_runs", "C01_query", "C01_query_narrow", "C01_roundtrip",
                 "C01_roundtrip_multipass", "C01_roundtrip_file_exact", "C01_same_regions",
                 "C01_chrom_table_on_input", "C01_query_on_input", "C01_roundtrip_on_input",
                 "C01_zero_length_boundary_refuted", "C01_split_chromosome_refused", "C01_accepted_one_run_per_chromosome",
